@@ -953,6 +953,14 @@ func gen(seed uint64, tier string) {
 		fmt.Fprintln(out, genRoads(r))
 		fmt.Fprintln(out, genTowns(r))
 	}
+	// the priority queue on its own (tie of the Lean heap model to container/heap + gonum's aStarQueue)
+	for i := 0; i < n/2; i++ {
+		fmt.Fprintln(out, genHeap(r, r.Range(1, 12), 3))
+		fmt.Fprintln(out, genHeap(r, r.Range(20, 80), r.Range(2, 9)))
+		if i%8 == 0 {
+			fmt.Fprintln(out, genHeap(r, r.Range(150, 400), 40))
+		}
+	}
 }
 
 // ---------------------------------------------------------------- implementation side
@@ -1039,6 +1047,13 @@ func dumpGraph(c *netCase, net *route.Network, b *strings.Builder) {
 }
 
 func implLine(line string) string {
+	if strings.HasPrefix(line, "heapq ") {
+		var res string
+		if p := vproto.Safe(func() { res = implHeap(line) }); p != "" {
+			return "panic " + p
+		}
+		return res
+	}
 	var b strings.Builder
 	var c *netCase
 	var net *route.Network
